@@ -22,6 +22,7 @@ macro "tr_sdisch" : tactic => `(tactic| first
   | omega
   | (tr_consts; tr_sconsts; omega)
   | ((try tr_model); tr_consts; tr_sconsts; omega)
+  | ((try tr_model); tr_consts; tr_sconsts; simp only [asU32] at *; omega)
   | fail "side condition not discharged")
 
 theorem ite_eq_iff_tr {α} (c : Prop) [Decidable c] (a b v : α) :
@@ -36,7 +37,7 @@ macro "tr_shyps" : tactic => `(tactic| (
   try simp (disch := tr_sdisch) only [tr_eq] at *
   try simp only [checkedI32, checkedI64, Tr.checkedU32, Tr.checkedU64, Time.validateHms, Time.tryFromHms, Time.tryFromUsecs,
     Date.validateYmd, Date.tryFromYmd, Date.tryFromDays, Date.addDays, Date.subDays, Timestamp.tryFromUsecs,
-    Timestamp.addDays, Timestamp.subDays, Timestamp.addIntervalDt, Timestamp.subIntervalDt, Timestamp.addTime, Timestamp.subTime, IntervalYM.tryFromMonths,
+    Parser.tryFromNDT, Timestamp.addDays, Timestamp.subDays, Timestamp.addIntervalDt, Timestamp.subIntervalDt, Timestamp.addTime, Timestamp.subTime, IntervalYM.tryFromMonths,
     IntervalYM.tryFromYm, IntervalYM.addIntervalYm, IntervalDT.tryFromUsecs, IntervalDT.tryFromDhms, IntervalDT.addIntervalDt,
     OracleDate.tryFromUsecs, Time.isValid, Date.isValid, IntervalYM.isValidYm, IntervalDT.isValid,
     Bool.false_eq_true, reduceCtorEq, Except.ok.injEq, Except.error.injEq, Option.some.injEq,
@@ -48,7 +49,7 @@ macro "tr_shyps" : tactic => `(tactic| (
 
 
 /-- every generated predicate (second chance: open the callee's predicate instead of citing its theorem) -/
-macro "tr_sunfold" : tactic => `(tactic| simp only [Tr.date2julian_safe, Tr.julian2date_safe, Tr.is_leap_year_safe, Tr.is_valid_date_safe, Tr.is_valid_timestamp_safe, Tr.is_valid_time_safe, Tr.days_of_month_safe, Tr.the_day_of_year_safe, Tr.Timestamp.new_safe, Tr.Timestamp.extract_safe, Tr.Timestamp.date_safe, Tr.Timestamp.time_safe, Tr.Timestamp.try_from_usecs_safe, Tr.Timestamp.add_interval_dt_safe, Tr.Timestamp.sub_interval_dt_safe, Tr.Timestamp.add_time_safe, Tr.Timestamp.sub_time_safe, Tr.Timestamp.sub_timestamp_safe, Tr.Timestamp.sub_date_safe, Tr.Timestamp.add_interval_ym_safe, Tr.Timestamp.sub_interval_ym_safe, Tr.Timestamp.last_day_of_month_safe, Tr.Timestamp.trunc_day_safe, Tr.Timestamp.trunc_hour_safe, Tr.Timestamp.trunc_minute_safe, Tr.Time.from_hms_unchecked_safe, Tr.Time.try_from_hms_safe, Tr.Time.is_valid_safe, Tr.Time.validate_hms_safe, Tr.Time.try_from_usecs_safe, Tr.Time.extract_safe, Tr.Time.sub_time_safe, Tr.Time.add_interval_dt_safe, Tr.Time.sub_interval_dt_safe, Tr.Time.from_interval_dt_safe, Tr.IntervalYM.from_ym_unchecked_safe, Tr.IntervalYM.try_from_ym_safe, Tr.IntervalYM.is_valid_ym_safe, Tr.IntervalYM.is_valid_months_safe, Tr.IntervalYM.try_from_months_safe, Tr.IntervalYM.extract_safe, Tr.IntervalYM.negate_safe, Tr.IntervalYM.add_interval_ym_safe, Tr.IntervalYM.sub_interval_ym_safe, Tr.IntervalYM.cmp_safe, Tr.IntervalDT.from_dhms_unchecked_safe, Tr.IntervalDT.try_from_dhms_safe, Tr.IntervalDT.is_valid_safe, Tr.IntervalDT.is_valid_usecs_safe, Tr.IntervalDT.try_from_usecs_safe, Tr.IntervalDT.extract_safe, Tr.IntervalDT.negate_safe, Tr.IntervalDT.add_interval_dt_safe, Tr.IntervalDT.sub_interval_dt_safe, Tr.IntervalDT.sub_time_safe, Tr.IntervalYM.mul_f64_safe, Tr.IntervalYM.div_f64_safe, Tr.IntervalDT.mul_f64_safe, Tr.IntervalDT.div_f64_safe, Tr.IntervalDT.second_safe, Tr.Time.mul_f64_safe, Tr.Time.div_f64_safe, Tr.Time.second_safe, Tr.Timestamp.add_days_safe, Tr.Timestamp.sub_days_safe, Tr.Timestamp.second_safe, Tr.OracleDate.add_days_safe, Tr.OracleDate.sub_days_safe, Tr.OracleDate.sub_date_safe, Tr.Timestamp.oracle_add_days_safe, Tr.Timestamp.oracle_sub_days_safe, Tr.Date.from_ymd_unchecked_safe, Tr.Date.try_from_ymd_safe, Tr.Date.is_valid_safe, Tr.Date.validate_ymd_safe, Tr.Date.try_from_days_safe, Tr.Date.extract_safe, Tr.Date.and_zero_time_safe, Tr.Date.and_time_safe, Tr.Date.and_hms_safe, Tr.Date.add_days_safe, Tr.Date.sub_days_safe, Tr.Date.sub_date_safe, Tr.Date.day_of_week_safe, Tr.Date.add_interval_ym_internal_safe, Tr.Date.last_day_of_month_safe, Tr.Date.partial_cmp_timestamp_safe, Tr.Date.eq_timestamp_safe, Tr.OracleDate.new_safe, Tr.OracleDate.is_valid_date_safe, Tr.OracleDate.try_from_usecs_safe, Tr.OracleDate.from_timestamp_safe, Tr.OracleDate.add_interval_dt_safe, Tr.OracleDate.add_interval_ym_safe, Tr.OracleDate.sub_interval_dt_safe, Tr.OracleDate.sub_interval_ym_safe] at *)
+macro "tr_sunfold" : tactic => `(tactic| simp only [Tr.date2julian_safe, Tr.julian2date_safe, Tr.is_leap_year_safe, Tr.is_valid_date_safe, Tr.is_valid_timestamp_safe, Tr.is_valid_time_safe, Tr.days_of_month_safe, Tr.the_day_of_year_safe, Tr.Timestamp.new_safe, Tr.Timestamp.extract_safe, Tr.Timestamp.date_safe, Tr.Timestamp.time_safe, Tr.Timestamp.try_from_usecs_safe, Tr.Timestamp.add_interval_dt_safe, Tr.Timestamp.sub_interval_dt_safe, Tr.Timestamp.add_time_safe, Tr.Timestamp.sub_time_safe, Tr.Timestamp.sub_timestamp_safe, Tr.Timestamp.sub_date_safe, Tr.Timestamp.add_interval_ym_safe, Tr.Timestamp.sub_interval_ym_safe, Tr.Timestamp.last_day_of_month_safe, Tr.Timestamp.trunc_day_safe, Tr.Timestamp.trunc_hour_safe, Tr.Timestamp.trunc_minute_safe, Tr.Time.from_hms_unchecked_safe, Tr.Time.try_from_hms_safe, Tr.Time.is_valid_safe, Tr.Time.validate_hms_safe, Tr.Time.try_from_usecs_safe, Tr.Time.extract_safe, Tr.Time.sub_time_safe, Tr.Time.add_interval_dt_safe, Tr.Time.sub_interval_dt_safe, Tr.Time.from_interval_dt_safe, Tr.IntervalYM.from_ym_unchecked_safe, Tr.IntervalYM.try_from_ym_safe, Tr.IntervalYM.is_valid_ym_safe, Tr.IntervalYM.is_valid_months_safe, Tr.IntervalYM.try_from_months_safe, Tr.IntervalYM.extract_safe, Tr.IntervalYM.negate_safe, Tr.IntervalYM.add_interval_ym_safe, Tr.IntervalYM.sub_interval_ym_safe, Tr.IntervalYM.cmp_safe, Tr.IntervalDT.from_dhms_unchecked_safe, Tr.IntervalDT.try_from_dhms_safe, Tr.IntervalDT.is_valid_safe, Tr.IntervalDT.is_valid_usecs_safe, Tr.IntervalDT.try_from_usecs_safe, Tr.IntervalDT.extract_safe, Tr.IntervalDT.negate_safe, Tr.IntervalDT.add_interval_dt_safe, Tr.IntervalDT.sub_interval_dt_safe, Tr.IntervalDT.sub_time_safe, Tr.IntervalYM.mul_f64_safe, Tr.IntervalYM.div_f64_safe, Tr.IntervalDT.mul_f64_safe, Tr.IntervalDT.div_f64_safe, Tr.IntervalDT.second_safe, Tr.Time.mul_f64_safe, Tr.Time.div_f64_safe, Tr.Time.second_safe, Tr.Timestamp.add_days_safe, Tr.Timestamp.sub_days_safe, Tr.Timestamp.second_safe, Tr.OracleDate.add_days_safe, Tr.OracleDate.sub_days_safe, Tr.OracleDate.sub_date_safe, Tr.Timestamp.oracle_add_days_safe, Tr.Timestamp.oracle_sub_days_safe, Tr.NDT.new_safe, Tr.NDT.hour12_safe, Tr.NDT.adjust_hour12_safe, Tr.NDT.of_date_safe, Tr.NDT.of_time_safe, Tr.NDT.of_timestamp_safe, Tr.NDT.of_interval_ym_safe, Tr.NDT.of_interval_dt_safe, Tr.NDT.of_oracle_date_safe, Tr.Date.try_from_ndt_ref_safe, Tr.Date.try_from_ndt_safe, Tr.Time.try_from_ndt_ref_safe, Tr.Time.try_from_ndt_safe, Tr.Timestamp.try_from_ndt_safe, Tr.IntervalYM.try_from_ndt_safe, Tr.IntervalDT.try_from_ndt_safe, Tr.OracleDate.try_from_ndt_safe, Tr.Date.from_ymd_unchecked_safe, Tr.Date.try_from_ymd_safe, Tr.Date.is_valid_safe, Tr.Date.validate_ymd_safe, Tr.Date.try_from_days_safe, Tr.Date.extract_safe, Tr.Date.and_zero_time_safe, Tr.Date.and_time_safe, Tr.Date.and_hms_safe, Tr.Date.add_days_safe, Tr.Date.sub_days_safe, Tr.Date.sub_date_safe, Tr.Date.day_of_week_safe, Tr.Date.add_interval_ym_internal_safe, Tr.Date.last_day_of_month_safe, Tr.Date.partial_cmp_timestamp_safe, Tr.Date.eq_timestamp_safe, Tr.OracleDate.new_safe, Tr.OracleDate.is_valid_date_safe, Tr.OracleDate.try_from_usecs_safe, Tr.OracleDate.from_timestamp_safe, Tr.OracleDate.add_interval_dt_safe, Tr.OracleDate.add_interval_ym_safe, Tr.OracleDate.sub_interval_dt_safe, Tr.OracleDate.sub_interval_ym_safe] at *)
 
 macro "tr_sintro" : tactic => `(tactic| repeat' (first
   | exact True.intro
@@ -146,9 +147,13 @@ theorem sumOfDays_range (b i : Int) :
 /-- CONTRACT: month 1..12 (`month as usize - 1` indexes 12 columns), day ≤ 31. -/
 @[tr_safe] theorem the_day_of_year_safe (y m d : Int) (hy : fitsI32 y) (hm : 1 ≤ m ∧ m ≤ 12) (hd : 0 ≤ d ∧ d ≤ 31) :
     Tr.the_day_of_year_safe y m d := by
-  unfold Tr.the_day_of_year_safe
-  have hs := sumOfDays_range (boolToInt (isLeapYear y)) (m - 1)
-  tr_safe_auto
+  -- (an UNTRANSLATED alias of the model is closed by the first alternative)
+  first
+  | (unfold Tr.the_day_of_year_safe; exact True.intro)
+  | (
+    unfold Tr.the_day_of_year_safe
+    have hs := sumOfDays_range (boolToInt (isLeapYear y)) (m - 1)
+    tr_safe_auto)
 
 
 /-! ## time.rs -/
@@ -523,28 +528,36 @@ theorem valid_ts_date (ts : Int) (hts : isValidTimestamp ts) : isValidDate (ts /
 
 @[tr_safe] theorem Date.add_interval_ym_internal_safe (d i : Int) (hd : isValidDate d) (hi : IntervalYM.isValidMonths i) :
     Tr.Date.add_interval_ym_internal_safe d i := by
-  unfold Tr.Date.add_interval_ym_internal_safe
-  have hx := extract_valid d hd
-  have hr := valid_date_range d hd
-  rw [Date.extract_eq d hr.1 hr.2]
-  generalize Date.extract d = e at *
-  obtain ⟨y, m, dd⟩ := e
-  tr_safe_auto
+  -- (an UNTRANSLATED alias of the model is closed by the first alternative)
+  first
+  | (unfold Tr.Date.add_interval_ym_internal_safe; exact True.intro)
+  | (
+    unfold Tr.Date.add_interval_ym_internal_safe
+    have hx := extract_valid d hd
+    have hr := valid_date_range d hd
+    rw [Date.extract_eq d hr.1 hr.2]
+    generalize Date.extract d = e at *
+    obtain ⟨y, m, dd⟩ := e
+    tr_safe_auto)
 
 @[tr_safe] theorem Timestamp.add_interval_ym_safe (ts i : Int) (hts : isValidTimestamp ts) (hi : IntervalYM.isValidMonths i) :
     Tr.Timestamp.add_interval_ym_safe ts i := by
-  unfold Tr.Timestamp.add_interval_ym_safe
-  have hb := (isValidTimestamp_iff ts).1 hts
-  rw [SqlDt.TrEq.Timestamp.extract_eq ts (by omega) (by omega), SqlDt.Timestamp.extract_eq]
-  dsimp only
-  have hd := valid_ts_date ts hts
-  have hr := valid_date_range _ hd
-  refine ⟨Timestamp.extract_safe ts hts, Date.add_interval_ym_internal_safe _ _ hd hi, ?_⟩
-  rw [SqlDt.TrEq.Date.add_interval_ym_internal_eq _ _ hr.1 hr.2]
-  split
-  · exact True.intro
-  · rename_i r1 heq
-    exact Timestamp.new_safe r1 _ (addMonths_ok_valid _ _ _ heq) (by rw [isValidTime_iff]; omega)
+  -- (an UNTRANSLATED alias of the model is closed by the first alternative)
+  first
+  | (unfold Tr.Timestamp.add_interval_ym_safe; exact True.intro)
+  | (
+    unfold Tr.Timestamp.add_interval_ym_safe
+    have hb := (isValidTimestamp_iff ts).1 hts
+    rw [SqlDt.TrEq.Timestamp.extract_eq ts (by omega) (by omega), SqlDt.Timestamp.extract_eq]
+    dsimp only
+    have hd := valid_ts_date ts hts
+    have hr := valid_date_range _ hd
+    refine ⟨Timestamp.extract_safe ts hts, Date.add_interval_ym_internal_safe _ _ hd hi, ?_⟩
+    rw [SqlDt.TrEq.Date.add_interval_ym_internal_eq _ _ hr.1 hr.2]
+    split
+    · exact True.intro
+    · rename_i r1 heq
+      exact Timestamp.new_safe r1 _ (addMonths_ok_valid _ _ _ heq) (by rw [isValidTime_iff]; omega))
 
 @[tr_safe] theorem Timestamp.sub_interval_ym_safe (ts i : Int) (hts : isValidTimestamp ts) (hi : IntervalYM.isValidMonths i) :
     Tr.Timestamp.sub_interval_ym_safe ts i := by
@@ -553,15 +566,19 @@ theorem valid_ts_date (ts : Int) (hts : isValidTimestamp ts) : isValidDate (ts /
 
 @[tr_safe] theorem OracleDate.add_interval_ym_safe (od i : Int) (hod : OracleDate.isValidDate od) (hi : IntervalYM.isValidMonths i) :
     Tr.OracleDate.add_interval_ym_safe od i := by
-  unfold Tr.OracleDate.add_interval_ym_safe
-  have hts : isValidTimestamp od := hod.1
-  have hb := (isValidTimestamp_iff od).1 hts
-  refine ⟨Timestamp.add_interval_ym_safe od i hts hi, ?_⟩
-  rw [SqlDt.TrEq.Timestamp.add_interval_ym_eq od i (by omega) (by omega)]
-  split
-  · exact True.intro
-  · rename_i r1 heq
-    exact OracleDate.from_timestamp_safe r1 (ts_addMonths_ok_valid _ _ _ hts heq)
+  -- (an UNTRANSLATED alias of the model is closed by the first alternative)
+  first
+  | (unfold Tr.OracleDate.add_interval_ym_safe; exact True.intro)
+  | (
+    unfold Tr.OracleDate.add_interval_ym_safe
+    have hts : isValidTimestamp od := hod.1
+    have hb := (isValidTimestamp_iff od).1 hts
+    refine ⟨Timestamp.add_interval_ym_safe od i hts hi, ?_⟩
+    rw [SqlDt.TrEq.Timestamp.add_interval_ym_eq od i (by omega) (by omega)]
+    split
+    · exact True.intro
+    · rename_i r1 heq
+      exact OracleDate.from_timestamp_safe r1 (ts_addMonths_ok_valid _ _ _ hts heq))
 
 @[tr_safe] theorem OracleDate.sub_interval_ym_safe (od i : Int) (hod : OracleDate.isValidDate od) (hi : IntervalYM.isValidMonths i) :
     Tr.OracleDate.sub_interval_ym_safe od i := by
@@ -570,27 +587,35 @@ theorem valid_ts_date (ts : Int) (hts : isValidTimestamp ts) : isValidDate (ts /
 
 @[tr_safe] theorem Date.last_day_of_month_safe (d : Int) (hd : isValidDate d) :
     Tr.Date.last_day_of_month_safe d := by
-  unfold Tr.Date.last_day_of_month_safe
-  have hx := extract_valid d hd
-  have hr := valid_date_range d hd
-  rw [Date.extract_eq d hr.1 hr.2]
-  generalize Date.extract d = e at *
-  obtain ⟨y, m, dd⟩ := e
-  tr_safe_auto
+  -- (an UNTRANSLATED alias of the model is closed by the first alternative)
+  first
+  | (unfold Tr.Date.last_day_of_month_safe; exact True.intro)
+  | (
+    unfold Tr.Date.last_day_of_month_safe
+    have hx := extract_valid d hd
+    have hr := valid_date_range d hd
+    rw [Date.extract_eq d hr.1 hr.2]
+    generalize Date.extract d = e at *
+    obtain ⟨y, m, dd⟩ := e
+    tr_safe_auto)
 
 @[tr_safe] theorem Timestamp.last_day_of_month_safe (ts : Int) (hts : isValidTimestamp ts) :
     Tr.Timestamp.last_day_of_month_safe ts := by
-  unfold Tr.Timestamp.last_day_of_month_safe
-  have hb := (isValidTimestamp_iff ts).1 hts
-  rw [SqlDt.TrEq.Timestamp.extract_eq ts (by omega) (by omega), SqlDt.Timestamp.extract_eq]
-  dsimp only
-  have hd := valid_ts_date ts hts
-  have hx := extract_valid _ hd
-  have hr := valid_date_range _ hd
-  rw [SqlDt.TrEq.Date.extract_eq _ hr.1 hr.2]
-  generalize Date.extract (ts / 86400000000) = e at *
-  obtain ⟨y, m, dd⟩ := e
-  tr_safe_auto
+  -- (an UNTRANSLATED alias of the model is closed by the first alternative)
+  first
+  | (unfold Tr.Timestamp.last_day_of_month_safe; exact True.intro)
+  | (
+    unfold Tr.Timestamp.last_day_of_month_safe
+    have hb := (isValidTimestamp_iff ts).1 hts
+    rw [SqlDt.TrEq.Timestamp.extract_eq ts (by omega) (by omega), SqlDt.Timestamp.extract_eq]
+    dsimp only
+    have hd := valid_ts_date ts hts
+    have hx := extract_valid _ hd
+    have hr := valid_date_range _ hd
+    rw [SqlDt.TrEq.Date.extract_eq _ hr.1 hr.2]
+    generalize Date.extract (ts / 86400000000) = e at *
+    obtain ⟨y, m, dd⟩ := e
+    tr_safe_auto)
 
 @[tr_safe] theorem Timestamp.trunc_day_safe (ts : Int) (hts : isValidTimestamp ts) :
     Tr.Timestamp.trunc_day_safe ts := by
@@ -604,11 +629,15 @@ theorem valid_ts_date (ts : Int) (hts : isValidTimestamp ts) : isValidDate (ts /
 
 @[tr_safe] theorem Timestamp.trunc_minute_safe (ts : Int) (hts : isValidTimestamp ts) :
     Tr.Timestamp.trunc_minute_safe ts := by
-  unfold Tr.Timestamp.trunc_minute_safe
-  have hb := (isValidTimestamp_iff ts).1 hts
-  try simp (disch := omega) only [SqlDt.TrEq.Timestamp.time_eq, SqlDt.Timestamp.time_eq, SqlDt.TrEq.Time.extract_eq,
-    SqlDt.Time.extract_eq]
-  tr_safe_auto
+  -- (an UNTRANSLATED alias of the model is closed by the first alternative)
+  first
+  | (unfold Tr.Timestamp.trunc_minute_safe; exact True.intro)
+  | (
+    unfold Tr.Timestamp.trunc_minute_safe
+    have hb := (isValidTimestamp_iff ts).1 hts
+    try simp (disch := omega) only [SqlDt.TrEq.Timestamp.time_eq, SqlDt.Timestamp.time_eq, SqlDt.TrEq.Time.extract_eq,
+      SqlDt.Time.extract_eq]
+    tr_safe_auto)
 
 @[tr_safe] theorem Date.partial_cmp_timestamp_safe (d ts : Int) (hd : isValidDate d) (hts : isValidTimestamp ts) :
     Tr.Date.partial_cmp_timestamp_safe d ts := by
@@ -717,14 +746,190 @@ theorem fromTimestamp_valid (ts : Int) (hts : isValidTimestamp ts) :
 
 @[tr_safe] theorem Timestamp.oracle_add_days_safe (ts : Int) (x : F64) (hts : isValidTimestamp ts) :
     Tr.Timestamp.oracle_add_days_safe ts x := by
-  unfold Tr.Timestamp.oracle_add_days_safe
-  have hv := fromTimestamp_valid ts hts
-  tr_safe_auto
+  -- (an UNTRANSLATED alias of the model is closed by the first alternative)
+  first
+  | (unfold Tr.Timestamp.oracle_add_days_safe; exact True.intro)
+  | (
+    unfold Tr.Timestamp.oracle_add_days_safe
+    have hv := fromTimestamp_valid ts hts
+    tr_safe_auto)
 
 @[tr_safe] theorem Timestamp.oracle_sub_days_safe (ts : Int) (x : F64) (hts : isValidTimestamp ts) :
     Tr.Timestamp.oracle_sub_days_safe ts x := by
-  unfold Tr.Timestamp.oracle_sub_days_safe
-  have hv := fromTimestamp_valid ts hts
+  -- (an UNTRANSLATED alias of the model is closed by the first alternative)
+  first
+  | (unfold Tr.Timestamp.oracle_sub_days_safe; exact True.intro)
+  | (
+    unfold Tr.Timestamp.oracle_sub_days_safe
+    have hv := fromTimestamp_valid ts hts
+    tr_safe_auto)
+
+/-! ## The conversion layer `format::NaiveDateTime` (phase 4).  A `NaiveDateTime` is a plain record, not a validated
+    value: the hypotheses say that each field lies in its Rust type. -/
+
+@[tr_safe] theorem NDT.new_safe : Tr.NDT.new_safe := by
+  unfold Tr.NDT.new_safe
+  exact True.intro
+
+/-- CONTRACT: an hour of the day (needed only for the arithmetic form `(hour + 11) % 12 + 1` of `harmless.diff`). -/
+@[tr_safe] theorem NDT.hour12_safe (dt : NDT) (hy : fitsI32 dt.year) (hmo : fitsU32 dt.month) (hd : fitsU32 dt.day) (hh : fitsU32 dt.hour) (hmi : fitsU32 dt.minute) (hs : fitsU32 dt.sec) (hus : fitsU32 dt.usec) (hc : dt.hour ≤ 23) :
+    Tr.NDT.hour12_safe dt := by
+  unfold Tr.NDT.hour12_safe
+  tr_safe_auto
+
+/-- CONTRACT (crate-internal `&mut self` helper of the parser): an hour of the day; `self.hour + 12` is a `u32` sum. -/
+@[tr_safe] theorem NDT.adjust_hour12_safe (dt : NDT) (hy : fitsI32 dt.year) (hmo : fitsU32 dt.month) (hd : fitsU32 dt.day) (hh : fitsU32 dt.hour) (hmi : fitsU32 dt.minute) (hs : fitsU32 dt.sec) (hus : fitsU32 dt.usec) (hc : dt.hour ≤ 23) :
+    Tr.NDT.adjust_hour12_safe dt := by
+  unfold Tr.NDT.adjust_hour12_safe
+  tr_safe_auto
+
+@[tr_safe] theorem NDT.of_date_safe (d : Int) (hd : isValidDate d) :
+    Tr.NDT.of_date_safe d := by
+  unfold Tr.NDT.of_date_safe
+  tr_safe_auto
+
+@[tr_safe] theorem NDT.of_time_safe (t : Int) (ht : isValidTime t) :
+    Tr.NDT.of_time_safe t := by
+  unfold Tr.NDT.of_time_safe
+  tr_safe_auto
+
+@[tr_safe] theorem NDT.of_timestamp_safe (ts : Int) (hts : isValidTimestamp ts) :
+    Tr.NDT.of_timestamp_safe ts := by
+  unfold Tr.NDT.of_timestamp_safe
+  tr_safe_auto
+
+@[tr_safe] theorem NDT.of_interval_ym_safe (v : Int) (hv : IntervalYM.isValidMonths v) :
+    Tr.NDT.of_interval_ym_safe v := by
+  unfold Tr.NDT.of_interval_ym_safe
+  tr_safe_auto
+
+@[tr_safe] theorem NDT.of_interval_dt_safe (v : Int) (hv : IntervalDT.isValidUsecs v) :
+    Tr.NDT.of_interval_dt_safe v := by
+  unfold Tr.NDT.of_interval_dt_safe
+  tr_safe_auto
+
+@[tr_safe] theorem NDT.of_oracle_date_safe (od : Int) (hod : OracleDate.isValidDate od) :
+    Tr.NDT.of_oracle_date_safe od := by
+  unfold Tr.NDT.of_oracle_date_safe
+  tr_safe_auto
+
+/-- what the two validations establish (read off the model's `validateYmd` / `validateHms`) -/
+theorem validateYmd_ok' (y m d : Int) (u : Unit) (h : Date.validateYmd y m d = .ok u) :
+    1 ≤ y ∧ y ≤ 9999 ∧ 1 ≤ m ∧ m ≤ 12 ∧ 1 ≤ d ∧ d ≤ 31 := by
+  unfold Date.validateYmd DATE_MIN_YEAR DATE_MAX_YEAR MONTHS_PER_YEAR at h
+  split at h; · cases h
+  split at h; · cases h
+  split at h; · cases h
+  omega
+
+theorem validateHms_ok (h mi s : Int) (u : Unit) (hv : Time.validateHms h mi s = .ok u) : h < 24 ∧ mi < 60 ∧ s < 60 := by
+  unfold Time.validateHms HOURS_PER_DAY MINUTES_PER_HOUR SECONDS_PER_MINUTE at hv
+  split at hv; · cases hv
+  split at hv; · cases hv
+  split at hv; · cases hv
+  omega
+
+/-- the Julian day of a date with year 1..9999 (a coarse bound is all the overflow checks need) -/
+theorem date2julian_range (y m d : Int) (hy : 1 ≤ y ∧ y ≤ 9999) (hm : 1 ≤ m ∧ m ≤ 12) (hd : 1 ≤ d ∧ d ≤ 31) :
+    1721000 ≤ date2julian y m d ∧ date2julian y m d ≤ 5374000 := by
+  unfold date2julian
+  dsimp only
+  have h1 := SqlDt.TrTactic.rdiv_spec (if m > 2 then y + 4800 else y + 4799) 100
+  have h2 := SqlDt.TrTactic.rdiv_spec (if m > 2 then y + 4800 else y + 4799) 4
+  generalize rdiv (if m > 2 then y + 4800 else y + 4799) 100 = c at *
+  generalize rdiv (if m > 2 then y + 4800 else y + 4799) 4 = q at *
+  have h3 := SqlDt.TrTactic.rdiv_spec c 4
+  generalize rdiv c 4 = c4 at *
+  have h4 := SqlDt.TrTactic.rdiv_spec (7834 * if m > 2 then m + 1 else m + 13) 256
+  generalize rdiv (7834 * if m > 2 then m + 1 else m + 13) 256 = w at *
+  split at h1 <;> split at h4 <;> omega
+
+/-- a timestamp produced by `TryFrom<NaiveDateTime>` is in range (its last step is `try_from_usecs`) -/
+theorem tryFromNDT_TS_ok_valid (dt : NDT) (r : Int) (h : Parser.tryFromNDT .TS dt = .ok r) : isValidTimestamp r := by
+  unfold Parser.tryFromNDT at h
+  simp only [bind, Except.bind] at h
+  cases h1 : Date.validateYmd dt.year dt.month dt.day with
+  | error e => rw [h1] at h; cases h
+  | ok u =>
+    rw [h1] at h
+    dsimp only at h
+    cases h2 : Time.validateHms dt.hour dt.minute dt.sec with
+    | error e => rw [h2] at h; cases h
+    | ok u2 =>
+      rw [h2] at h
+      dsimp only at h
+      unfold Timestamp.tryFromUsecs at h
+      split at h
+      · cases h; assumption
+      · cases h
+
+@[tr_safe] theorem Date.try_from_ndt_ref_safe (dt : NDT) (hy : fitsI32 dt.year) (hmo : fitsU32 dt.month) (hd : fitsU32 dt.day) (hh : fitsU32 dt.hour) (hmi : fitsU32 dt.minute) (hs : fitsU32 dt.sec) (hus : fitsU32 dt.usec) :
+    Tr.Date.try_from_ndt_ref_safe dt := by
+  unfold Tr.Date.try_from_ndt_ref_safe
+  tr_safe_auto
+
+@[tr_safe] theorem Date.try_from_ndt_safe (dt : NDT) (hy : fitsI32 dt.year) (hmo : fitsU32 dt.month) (hd : fitsU32 dt.day) (hh : fitsU32 dt.hour) (hmi : fitsU32 dt.minute) (hs : fitsU32 dt.sec) (hus : fitsU32 dt.usec) :
+    Tr.Date.try_from_ndt_safe dt := by
+  unfold Tr.Date.try_from_ndt_safe
+  tr_safe_auto
+
+@[tr_safe] theorem Time.try_from_ndt_ref_safe (dt : NDT) (hy : fitsI32 dt.year) (hmo : fitsU32 dt.month) (hd : fitsU32 dt.day) (hh : fitsU32 dt.hour) (hmi : fitsU32 dt.minute) (hs : fitsU32 dt.sec) (hus : fitsU32 dt.usec) :
+    Tr.Time.try_from_ndt_ref_safe dt := by
+  unfold Tr.Time.try_from_ndt_ref_safe
+  tr_safe_auto
+
+@[tr_safe] theorem Time.try_from_ndt_safe (dt : NDT) (hy : fitsI32 dt.year) (hmo : fitsU32 dt.month) (hd : fitsU32 dt.day) (hh : fitsU32 dt.hour) (hmi : fitsU32 dt.minute) (hs : fitsU32 dt.sec) (hus : fitsU32 dt.usec) :
+    Tr.Time.try_from_ndt_safe dt := by
+  unfold Tr.Time.try_from_ndt_safe
+  tr_safe_auto
+
+@[tr_safe] theorem Timestamp.try_from_ndt_safe (dt : NDT) (hy : fitsI32 dt.year) (hmo : fitsU32 dt.month) (hd : fitsU32 dt.day) (hh : fitsU32 dt.hour) (hmi : fitsU32 dt.minute) (hs : fitsU32 dt.sec) (hus : fitsU32 dt.usec) :
+    Tr.Timestamp.try_from_ndt_safe dt := by
+  -- (an UNTRANSLATED alias of the model is closed by the first alternative)
+  first
+  | (unfold Tr.Timestamp.try_from_ndt_safe; exact True.intro)
+  | (
+    unfold Tr.Timestamp.try_from_ndt_safe
+    simp only [SqlDt.TrEq.Date.validate_ymd_eq, SqlDt.TrEq.Time.validate_hms_eq, SqlDt.TrEq.UNIX_EPOCH_JULIAN_eq]
+    refine ⟨Date.validate_ymd_safe _ _ _ hy hmo hd, ?_⟩
+    cases h1 : Date.validateYmd dt.year dt.month dt.day with
+    | error e => exact True.intro
+    | ok u =>
+      dsimp only
+      refine ⟨Time.validate_hms_safe _ _ _ hh hmi hs, ?_⟩
+      cases h2 : Time.validateHms dt.hour dt.minute dt.sec with
+      | error e => exact True.intro
+      | ok u2 =>
+        dsimp only
+        have hv := validateYmd_ok' _ _ _ _ h1
+        have hw := validateHms_ok _ _ _ _ h2
+        have hj := date2julian_range dt.year dt.month dt.day ⟨hv.1, hv.2.1⟩ ⟨hv.2.2.1, hv.2.2.2.1⟩ ⟨hv.2.2.2.2.1, hv.2.2.2.2.2⟩
+        rw [SqlDt.TrEq.date2julian_eq _ _ _ (by omega) (by omega) (by omega) (by omega)]
+        tr_safe_auto)
+
+@[tr_safe] theorem IntervalDT.try_from_ndt_safe (dt : NDT) (hy : fitsI32 dt.year) (hmo : fitsU32 dt.month) (hd : fitsU32 dt.day) (hh : fitsU32 dt.hour) (hmi : fitsU32 dt.minute) (hs : fitsU32 dt.sec) (hus : fitsU32 dt.usec) :
+    Tr.IntervalDT.try_from_ndt_safe dt := by
+  unfold Tr.IntervalDT.try_from_ndt_safe
+  tr_safe_auto
+
+@[tr_safe] theorem OracleDate.try_from_ndt_safe (dt : NDT) (hy : fitsI32 dt.year) (hmo : fitsU32 dt.month) (hd : fitsU32 dt.day) (hh : fitsU32 dt.hour) (hmi : fitsU32 dt.minute) (hs : fitsU32 dt.sec) (hus : fitsU32 dt.usec) :
+    Tr.OracleDate.try_from_ndt_safe dt := by
+  -- (an UNTRANSLATED alias of the model is closed by the first alternative)
+  first
+  | (unfold Tr.OracleDate.try_from_ndt_safe; exact True.intro)
+  | (
+    unfold Tr.OracleDate.try_from_ndt_safe
+    refine ⟨Timestamp.try_from_ndt_safe dt hy hmo hd hh hmi hs hus, ?_⟩
+    rw [SqlDt.TrEq.Timestamp.try_from_ndt_eq]
+    split
+    · exact True.intro
+    · rename_i r1 heq
+      exact OracleDate.from_timestamp_safe r1 (tryFromNDT_TS_ok_valid dt r1 heq))
+
+/-- CONTRACT (crate-internal record): `-dt.year` is an `i32` negation, so the year must not be `i32::MIN`. -/
+@[tr_safe] theorem IntervalYM.try_from_ndt_safe (dt : NDT) (hy : fitsI32 dt.year) (hmo : fitsU32 dt.month) (hd : fitsU32 dt.day) (hh : fitsU32 dt.hour) (hmi : fitsU32 dt.minute) (hs : fitsU32 dt.sec) (hus : fitsU32 dt.usec) (hc : -2147483648 < dt.year) :
+    Tr.IntervalYM.try_from_ndt_safe dt := by
+  unfold Tr.IntervalYM.try_from_ndt_safe
   tr_safe_auto
 
 end SqlDt.TrSafe
